@@ -767,6 +767,10 @@ class MCSRules(LockModel):
             src = ctx.ev_of_sym.get(s)
             good = src is not None and ctx.kind(src['obj']) == 'OWN'
             self.sink.emit(rule, 'ok' if good else 'violated', '%s successor found through the own node\'s link' % name, loc_of(e), '')
+            if what == 'REL' and src is not None:
+                # a releaser gives its node up (recycled now or by the last member): the read that sees the successor's link must
+                # synchronise with the successor's linking RMW, otherwise that RMW races with the reuse / free of the node
+                self.acq_site('C12.LINK', fn, p, src, 'link read of a release: the successor\'s write to this node must happen-before the node is recycled or freed', soft=True)
         if k == 'NEXT':
             self.tail_wait(fn, p, ctx, e, name)
         # SIX release / upgrade: predecessor readers drained first
